@@ -13,8 +13,8 @@ REG = Registry(
     "C18",
     rule=(
         "Hypothesis draws reachable machines (ML, and MAP over a prior; after 0..3 EM steps; scalar / vector / "
-        "matrix floors incl. floors below machine epsilon; all switch combinations; caps 1..12; thresholds "
-        "1e-8..0.3) and statistics (from frames, fractional, zero), a path or an open h5py.File on either side, "
+        "matrix floors incl. floors below machine epsilon; all switch combinations; caps 0..200; thresholds "
+        "0 and 1e-8..0.3) and statistics (from frames, fractional, zero), a path or an open h5py.File on either side, "
         "constructor-from-file or load into an existing object of a different shape, 1..3 round trips, and legacy "
         "layouts written by the harness in the layout of the repository's legacy files. Oracles: parameters / "
         "statistics BIT-identical; package equality true; identical log_likelihood on a probe batch; every "
@@ -99,8 +99,8 @@ def g_machine(draw):
     upd = [bool(b) for b in gen.choice(draw, [(1, 1, 1), (1, 0, 0), (0, 1, 0), (0, 0, 1), (1, 1, 0), (1, 0, 1), (0, 1, 1),
                                               (0, 0, 0)])]
     return {"p": p, "X": X, "probe": probe, "upd": upd, "map": gen.choice(draw, [False, True]),
-            "thr": gen.choice(draw, [1e-2, 1e-1, 1e-3, 0.3, 1e-5, 1e-8, 3e-2]),
-            "cap": gen.choice(draw, [12, 8, 5, 3, 2, 1, 200]),
+            "thr": gen.choice(draw, [1e-2, 1e-1, 1e-3, 0.0, 0.3, 1e-5, 1e-8, 3e-2]),
+            "cap": gen.choice(draw, [12, 8, 5, 3, 2, 1, 200, 0]),
             "pre_steps": gen.integer(draw, 0, 3), "trips": gen.integer(draw, 1, 3),
             "save_as": gen.choice(draw, ["path", "file"]), "read_as": gen.choice(draw, ["path", "file"]),
             "how": gen.choice(draw, ["from_hdf5", "load"]), "C2": gen.integer(draw, 1, 5),
